@@ -26,7 +26,8 @@ pub const SESSIONS: &[(&str, &str)] = &[
     ("destruct", "(a, b) := (1, \"x\")\na\nt := (a, b, 2.5)\nt.2\ns := struct{p := a, q := b}\ns.q\n(b, a) := (a, b)\n(a, b)"),
     ("loops", "n := mut 0\nfor e in [1, 2, 3]~ { n += e }\n*n\nw := mut 3\nwhile *w > 0 { w -= 1 }\n*w\nr := if *n > 5 { \"big\" } else { \"small\" }\nr"),
     ("prints", "std.io.print(\"a\")\np := std.io.print\np(5)\nq := (v: int) { p(v) }\nq(6)\np := (v: any) { }\nq(7)\np(8)"),
-    ("unions", "k := true\nx := if k { 1 } else { \"a\" }\narr := [x, 2]\narr\nc := mut x\n*c\nu := (v: int|string) -> int|string { return v }\nu(x)\narr2 := arr + [\"z\"]\narr2"),
+    ("unions", "k := true\nx := if k { 1 } else { \"a\" }\narr := [x, 2]\narr\narr == [1, 2]\nif v: [int] = arr { \"ints\" } else { \"mixed\" }\nc := mut x\n*c\nu := (v: int|string) -> int|string { return v }\nu(x)\narr2 := arr + [\"z\"]\narr2\n([u(x)] == [1], (arr ? int) $], arr[0:1] == [1])"),
+    ("wide_static_narrow_value", "pick := () -> int|float { return 1 }\ny := pick()\nb := [y]\nb == [1]\nt := (y, [y, y])\nt == (1, [1, 1])\nif w: [int] = b { 1 } else { 2 }\ns := struct{f := [y]}\ns.f == [1]\nrep := [y; 2]\nrep == [1, 1]\nm := match b { q: [int] => \"ints\", q: [int|float] => \"wide\", }\nm"),
     ("redefine", "f := () -> int { return 1 }\ng := () -> int { return f() }\nf := () -> int { return 2 }\ng()\nf()\ng := () -> int { return f() + 10 }\ng()"),
     ("match_ifset", "v := [1, \"a\", 2.5]\npick := (x: int|string|float) -> int { return match x { i: int => 1, s: string => 2, f: float => 3, } }\npick(v[0])\npick(v[1])\nif y: int = v[0] { y } else { 0 }\nz := if y: string = v[1] { y } else { \"none\" }\nz"),
     ("counter_factory", "mk := () -> () -> int { n := mut 0; return () -> int { n += 1; return *n } }\na := mk()\nb := mk()\na()\na()\nb()\n(a(), b())"),
@@ -40,6 +41,7 @@ pub const SESSIONS: &[(&str, &str)] = &[
     ("iterator_across_inputs", "src := [1, 2, 3, 4, 5, 6]~\nev := src ? (x: int) -> bool { return x % 2 == 0 }\nev()\nsrc()\nev()\nrest := ev $]\nrest\n(src(), ev())"),
     ("import_module", "m := import \"modp\"\nm.a\nm.f(2)\nn := import \"modp\"\n(m.a, n.a, n.s)\na := 100\nm.f(1)\nk := import \"modq\"\nk.inner.f(a)"),
     ("param_shapes", "c := mut 5\nbump := (x: mut int, k: int) -> int { return x += k }\nbump(c, 2)\nsum := (xs: [int], s: struct{a: int, b: string}) -> int { return std.len(xs) + s.a }\nsum([1, 2], struct{a := 1, b := \"x\"})\neither := (v: int|string|[int]) -> int { if y: int = v { return y } return 0 }\neither(\"q\")\napply := (h: (int) -> int, v: int) -> int { return h(v) }\napply((q: int) -> int { return q * 3 }, 4)\nnothing := (a: int) { }\nnothing(1)\npair := (t: (int, string), u: ()) -> string { return t.1 }\npair((1, \"z\"), ())"),
+    ("cell_params", "cell := mut 10\nother := mut 1\nbump := (c: mut int, by: int) -> int { c += by; return *c }\nbump(cell, 5)\nsame := (c: mut int) -> mut int { return c }\nsame(cell) == cell\nswap := (p: mut int, q: mut int) { t := *p; p = *q; q = t }\nswap(cell, other)\n(*cell, *other)\nlog := mut [int] []\nnote := (l: mut [int], v: int) -> int { l += [v]; return std.len(*l) }\nnote(log, 3)\n*log"),
     ("own_name_param", "f := (f: int, g: int) -> int { return f + g }\nf(1, 2)\ng := (x: int) -> int { g := x + 1; return g }\ng(1)\ng(2)"),
 ];
 
@@ -542,7 +544,16 @@ pub fn run_scenario(sc: &Scenario) -> RunReport {
             for n in fnames {
                 let Some(Variable::Function(f)) = binterp.get_variable(&n).cloned() else { continue };
                 let Type::Function(ft) = f.as_type() else { continue };
-                let Some(good) = ft.params.iter().enumerate().map(|(i, p)| sample_arg(p, i)).collect::<Option<Vec<(Variable, String)>>>() else { continue };
+                // a `mut T` parameter receives a top-level cell of the session when there is one of
+                // exactly that type: by name in the language, the replica's cell through the host API
+                let cell_for = |t: &Type| -> Option<(Variable, String)> {
+                    let Type::Mut(_) = t else { return None };
+                    names.iter().find_map(|cn| match (interp.get_variable(cn), binterp.get_variable(cn)) {
+                        (Some(a @ Variable::Mut(_)), Some(b @ Variable::Mut(_))) if ctype(&a.as_type()) == ctype(t) && ctype(&b.as_type()) == ctype(t) => Some((b.clone(), cn.clone())),
+                        _ => None,
+                    })
+                };
+                let Some(good) = ft.params.iter().enumerate().map(|(i, p)| cell_for(p).or_else(|| sample_arg(p, i))).collect::<Option<Vec<(Variable, String)>>>() else { continue };
                 let mut vectors: Vec<Vec<(Variable, String)>> = vec![good.clone()];
                 // too short / too long / ill-typed in one position
                 if !good.is_empty() {
@@ -624,6 +635,35 @@ pub fn run_scenario(sc: &Scenario) -> RunReport {
                                 ));
                                 return rep;
                             }
+                            // a call that returns one of its cell arguments returns that very cell
+                            if let (Ok(Variable::Mut(lr)), Ok(Variable::Mut(hr))) = (l, h) {
+                                for (pos, (hv, lit)) in pairs.iter().enumerate() {
+                                    if let (Variable::Mut(hc), Some(Variable::Mut(lc))) = (hv, interp.get_variable(lit)) {
+                                        if Arc::ptr_eq(lr, lc) != Arc::ptr_eq(hr, hc) {
+                                            rep.violation = Some((
+                                                "host-call-result".into(),
+                                                format!("`{text}`: in the language the result {} argument {pos}'s cell, through create_call it {}", if Arc::ptr_eq(lr, lc) { "is" } else { "is not" }, if Arc::ptr_eq(hr, hc) { "is" } else { "is not" }),
+                                            ));
+                                            return rep;
+                                        }
+                                    }
+                                }
+                            }
+                        }
+                    }
+                    // the effects of the call: every top-level variable afterwards, on both sides
+                    for vn in &names {
+                        if vn == "std" {
+                            continue;
+                        }
+                        let a = interp.get_variable(vn).map(ccontent);
+                        let b = binterp.get_variable(vn).map(ccontent);
+                        if a != b {
+                            rep.violation = Some((
+                                "host-call-effect".into(),
+                                format!("after `{text}`: top-level `{vn}` is {a:?} where the call was made in the language and {b:?} where it was made through create_call"),
+                            ));
+                            return rep;
                         }
                     }
                 }
